@@ -7,7 +7,7 @@
 
     Nothing has to be known about the POSITION between two iterations: a child of declared size
     [s] ends at [child_start + s], which may lie beyond the end of the data ([SeekTo] accepts
-    any position), and a meta box does not even end at [start + size]; the next [read_header]
+    any position); the next [read_header]
     then simply fails with [Err EIo] (or reads whatever is there).  What the loop needs is an
     invariant [I acc current] on the accumulator and the value of [current].
 
